@@ -53,6 +53,9 @@ pub fn shapes() -> Vec<Shape> {
         Shape { name: "manifestJsonEx-nested", class: Class::Finite, make: |d| format!("{}std.length(std.manifestJsonEx(v, \" \"))", nest_arr(d)) },
         Shape { name: "manifestYamlDoc-nested", class: Class::Finite, make: |d| format!("{}std.length(std.manifestYamlDoc({{r: v}}))", nest_obj(d)) },
         Shape { name: "manifestTomlEx-nested", class: Class::Finite, make: |d| format!("{}std.length(std.manifestTomlEx({{r: v}}, \" \"))", nest_obj(d)) },
+        Shape { name: "manifestTomlEx-inline-tables-nested", class: Class::Finite, make: |d| format!("{}std.length(std.manifestTomlEx({{r: [0, v]}}, \" \"))", nest_obj(d)) },
+        Shape { name: "manifestTomlEx-inline-arrays-nested", class: Class::Finite, make: |d| format!("{}std.length(std.manifestTomlEx({{r: v}}, \" \"))", nest_arr(d)) },
+        Shape { name: "manifestYamlDoc-arrays-nested", class: Class::Finite, make: |d| format!("{}std.length(std.manifestYamlDoc(v))", nest_arr(d)) },
         Shape { name: "manifestPython-nested", class: Class::Finite, make: |d| format!("{}std.length(std.manifestPython(v))", nest_arr(d)) },
         Shape { name: "prune-nested", class: Class::Finite, make: |d| format!("{}std.length(std.toString(std.prune([v])))", nest_arr(d)) },
         Shape { name: "flattenDeepArray-nested", class: Class::Finite, make: |d| format!("{}std.flattenDeepArray([v, 1])", nest_arr(d)) },
@@ -205,8 +208,8 @@ fn shape_sweep(sh_idx: usize, quick: bool, shard: &util::Shard, outer: &util::Sh
                 O::Value(v) => {
                     // every level of these shapes nests one call / thunk / comparison /
                     // manifestation inside the previous one: depth d cannot fit in fewer than d
-                    // frames (iterative shapes are exempt: tail calls, foldl, flattenDeepArray)
-                    let per_level = shape.class == Class::Finite && !matches!(shape.name, "thunk-chain-foldl" | "flattenDeepArray-nested" | "tailstrict-recursion");
+                    // frames (iterative shapes are exempt: tail calls, foldl)
+                    let per_level = shape.class == Class::Finite && !matches!(shape.name, "thunk-chain-foldl" | "tailstrict-recursion");
                     if per_level && d > s + 1 {
                         rep.violation(format!("C10/limit-not-enforced/{}", shape.name), format!("{} nested {d} deep succeeds under a frame limit of {s}", shape.name), case.clone());
                     }
@@ -322,6 +325,11 @@ pub fn self_containing() -> Vec<(&'static str, String)> {
         ("manifestYamlDoc", "std.manifestYamlDoc(a)", "std.manifestYamlDoc(a)"),
         ("manifestYamlStream", "std.manifestYamlStream([a])", "std.manifestYamlStream([a])"),
         ("manifestTomlEx", "std.manifestTomlEx({k: a}, \"\")", "std.manifestTomlEx(a, \"\")"),
+        ("manifestTomlEx-inline-table", "std.manifestTomlEx({k: [0, {i: a}]}, \"\")", "std.manifestTomlEx({k: [0, a]}, \"\")"),
+        ("manifestTomlEx-array-of-tables", "std.manifestTomlEx({k: [{i: a}]}, \"\")", "std.manifestTomlEx({k: [a]}, \"\")"),
+        ("manifestYamlDoc-in-array", "std.manifestYamlDoc([[a]])", "std.manifestYamlDoc([{k: a}])"),
+        ("manifestJsonEx-in-object", "std.manifestJsonEx({k: [a]}, \" \")", "std.manifestJsonEx([{k: a}], \" \")"),
+        ("manifestPython-in-object", "std.manifestPython({k: [a]})", "std.manifestPython([{k: a}])"),
         ("manifestPython", "std.manifestPython(a)", "std.manifestPython(a)"),
         ("manifestPythonVars", "std.manifestPythonVars({k: a})", "std.manifestPythonVars(a)"),
         ("manifestIni", "std.manifestIni({main: {k: a}, sections: {}})", "std.manifestIni({main: a, sections: {s: a}})"),
